@@ -61,6 +61,8 @@ PROFILES = {
         "pnonly": dict(kwargs={"settings": {"seed": 6, "pnrmse_threshold": 0.01}}),   # misses PNRMSE only: acceptable
         "noedge": dict(kwargs={"settings": {"seed": 8, "temperature_bin": {
             "include_edge_bins": False, "edge_bin_rate": None, "edge_bin_percent": None}}}),
+        "supp": dict(kwargs={"settings": {"seed": 9, "supplemental_time_series_columns": ["extra_ts"]}}, needs_extra=True),
+        "suppcat": dict(kwargs={"settings": {"seed": 9, "supplemental_categorical_columns": ["extra_cat"]}}, needs_extra=True),
         "obj": dict(kwargs={"settings": "OBJ"}),  # a settings object instead of a dict
     },
     "caltrack": {
@@ -81,6 +83,10 @@ def make_model(em, fam: str, profile: str):
 
 def needs_ghi(fam: str, profile: str) -> bool:
     return bool(PROFILES[fam][profile].get("needs_ghi"))
+
+
+def needs_extra(fam: str, profile: str) -> bool:
+    return bool(PROFILES[fam][profile].get("needs_extra"))
 
 
 def wants_weekend_regime(fam: str, profile: str) -> bool:
